@@ -429,7 +429,7 @@ class Stage(object):
                 j = max(r.get("at", 1), 1) - 1
                 what = "%s built by %s on input %r: process -> %s, call -> %s" % (
                     term_text(ev["t"]), ev["how"], "".join(t["ws"][j]), ev["res"][j], ev["cres"][j])
-                rep = dict(job=dict(id="replay/0", kind="peg", ws=[t["ws"][j]], terms=[dict(t=ev["t"], how=ev["how"])]))
+                rep = dict(job=dict(id="replay/0", kind="peg", ws=[t["ws"][j]], terms=[dict(t=ev["t"], how=ev["how"], dbg=bool(ev.get("dbg")))]))
             elif kind == "tag":
                 what = "taglang.parse(%r): accepted=%s, results on %s = %s" % (ev["text"], ev["ok"], t["sets"], ev["vals"])
                 rep = dict(job=dict(id="replay/0", kind="tag", sets=t["sets"], exprs=[dict(text=ev["text"])], retab=[]),
